@@ -290,8 +290,8 @@ def cancel(rng):
     # probes: every subscription that exists is attached and receives; nothing wedged
     g.emit("gsub " + hx(s_new))
     g.emit("gsub " + hx(s))
-    g.emit("wtsubs %s 1000" % hx(t))
     g.emit("wsubs %s 1000" % hx(b"projects/p"))
+    g.emit("wtsubs %s 1000" % hx(t))
     g.emit("pub %s %s" % (hx(t), _payload(rng, "probe")))
     g.emit("pull %s 1000 1" % hx(s_new))
     g.emit("pull %s 1000 1" % hx(s))
@@ -535,7 +535,69 @@ def multicreate(rng):
     return g.lines
 
 
-PROFILES = {"multicreate": multicreate, "wakecancel": wakecancel, "pubdel": pubdel, "namerace": namerace, "race": race, "swallow": swallow, "mix": mix, "wake": wake, "delete": delete, "burst": burst, "cancel": cancel}
+
+def pulllimit(rng):
+    """C07: several blocking Pulls wait on one subscription; fewer messages than waiters arrive well
+    into their wait (so that some waiters are woken and find nothing); every blocking Pull must
+    still return no later than the server-side wait limit counted from ITS OWN start."""
+    g = ConcGen(rng, caps=(2, 16))
+    g.setup(1, 1, dls=(10, 30))
+    s = sorted(g.subs)[0]
+    t = g.topics[0]
+    n_cons = rng.range(2, 4)
+    for c in range(n_cons):
+        g.emit("task c%d" % c)
+        d = rng.choice([0, 0, 1000000, 5000000, 60000000])
+        if d:
+            g.emit("sleep %d" % d)
+        g.emit("pull %s %d 0" % (hx(s), rng.choice([1, 1, 5])))
+    g.emit("task producer")
+    for _ in range(rng.range(1, 3)):
+        g.emit("sleep %d" % rng.choice([30000000, 120000000, 240000000, 100000000, 299000000]))
+        kind = rng.below(3)
+        if kind == 0:
+            g.emit("pub %s %s" % (hx(t), _payload(rng, "late")))
+        elif kind == 1:
+            g.emit("pub %s %s" % (hx(t), _payload(rng, "late")))
+            g.emit("stats " + hx(s))
+        else:
+            g.emit("stats " + hx(s))      # a request that carries no message: nobody may be disturbed
+    g.emit("go")
+    g.epilogue()
+    return g.lines
+
+
+def abandonpull(rng):
+    """C03 / C04 / C16: a Pull is abandoned around the moment its request is handled; later another
+    consumer pulls, and the leases are probed just before / after every deadline involved."""
+    g = ConcGen(rng, caps=(1, 2, 16))
+    dl = rng.choice([10, 10, 12])
+    g.setup(1, 1, dls=(dl,))
+    s = sorted(g.subs)[0]
+    t = g.topics[0]
+    g.emit("pub %s %s" % (hx(t), jl(_payload(rng, "a") for _ in range(rng.range(1, 3)))))
+    n_fill = rng.choice([0, 0, 2, 20])
+    for i in range(n_fill):
+        g.emit("task f%d" % i)
+        g.emit(rng.choice(["stats " + hx(s), "gsub " + hx(s)]))
+    g.emit("task victim")
+    if rng.chance(1, 2):
+        g.emit("yield %d" % rng.range(1, 4))
+    g.emit("drop%d pull %s %d %d" % (rng.range(0, 6), hx(s), rng.choice([1, 5, 1000]), rng.choice([0, 1])))
+    g.emit("go")
+    gap = rng.choice([1000000, 4000000, 7000000, 9500000])
+    g.emit("adv %d" % gap)
+    g.emit("pull %s 1000 1" % hx(s))
+    # just after the abandoned delivery's deadline, well before the second one's
+    g.emit("adv %d" % (dl * 1000000 - gap + rng.choice([150000, 300000, 900000])))
+    g.emit("pull %s 1000 1" % hx(s))
+    g.emit("stats " + hx(s))
+    g.emit("adv %d" % (gap + 200000))
+    g.emit("pull %s 1000 1" % hx(s))
+    g.epilogue()
+    return g.lines
+
+PROFILES = {"abandonpull": abandonpull, "pulllimit": pulllimit, "multicreate": multicreate, "wakecancel": wakecancel, "pubdel": pubdel, "namerace": namerace, "race": race, "swallow": swallow, "mix": mix, "wake": wake, "delete": delete, "burst": burst, "cancel": cancel}
 
 
 def cases(rng, profile, n):
